@@ -1,3 +1,4 @@
 //! shared machinery (DESIGN.md sec. 3)
 pub mod refalg;
+pub mod refmat;
 pub mod sc;
